@@ -24,6 +24,11 @@ TEXT = {
             "compared with an independent point->value model; no exhaustive claim.",
             "Trusts the TreeSpec->Fiber/Tensor builders (public constructors only) and the dict model in vf/model.py; "
             "depth<=3, shapes<=7."),
+    "C18": ("Hypothesis PBT + exhaustive small domain: footprint sums recomputed from a raw tree walk",
+            "Generated tensors (depth 1-3, explicit defaults, empty sub-fibers, all build routes) x random per-rank format "
+            "specifications with missing fields; every Format query compared with sums over a raw walk; all trees over "
+            "tiny shapes x all C/U assignments enumerated with place-value bit widths.",
+            "Trusts the raw walk of Fiber.coords/payloads and declared (authoritative) shapes; depth<=3, shapes<=5."),
 }
 
 
